@@ -434,10 +434,11 @@ fn check_ci8(c: &mut Case, w: usize, h: usize, rng: &mut Rng) {
     let ah = (h + 3) / 4 * 4;
     let npal = rng.range(1, 256);
     let palette: Vec<u16> = (0..npal).map(|_| rng.u32() as u16).collect();
-    let mut payload = vec![0u8; aw * ah];
-    // index = position mod palette size inside the image; padding cells hold an index too
-    for y in 0..ah {
-        for x in 0..aw {
+    // padding cells (outside w x h) hold an index that is NOT in the palette: they must never be looked up
+    let mut payload = vec![if npal < 256 { 0xFF } else { 0 }; aw * ah];
+    // index = position mod palette size inside the image
+    for y in 0..h {
+        for x in 0..w {
             payload[pixels::ci8_offset(x, y, aw)] = ((y * w + x + 3 * y) % npal) as u8;
         }
     }
